@@ -90,6 +90,8 @@ pub struct Inputs {
     pub lines: Vec<MLine>,
     pub ft: FTable,
     pub n: usize,
+    /// Σ|declared DEMANDA values| (before lines of one service are added up: opposite signs cancel)
+    pub needs_abs: f64,
 }
 
 pub fn inputs(b: &Building, f: &FactorCase) -> Result<Inputs, Failure> {
@@ -97,14 +99,16 @@ pub fn inputs(b: &Building, f: &FactorCase) -> Result<Inputs, Failure> {
     let factors = prepare_sound(f)?;
     let lines = lines_from_components(&comps);
     let ft = FTable::from_factors(&factors);
-    Ok(Inputs { comps, factors, lines, ft, n: b.n })
+    let needs_abs = b.needs.iter().flat_map(|n| n.vals.iter()).map(|x| x.abs() as f64).sum();
+    Ok(Inputs { comps, factors, lines, ft, n: b.n, needs_abs })
 }
 
 impl Inputs {
     pub fn scales(&self, area: f32) -> Scales {
         let mut sc = Scales::from_inputs(&self.lines, self.n, &self.ft, area as f64);
         let nd = &self.comps.needs;
-        sc.needs = [&nd.ACS, &nd.CAL, &nd.REF].iter().filter_map(|x| x.as_ref()).flat_map(|v| v.iter()).map(|x| x.abs() as f64).sum();
+        let summed: f64 = [&nd.ACS, &nd.CAL, &nd.REF].iter().filter_map(|x| x.as_ref()).flat_map(|v| v.iter()).map(|x| x.abs() as f64).sum();
+        sc.needs = summed.max(self.needs_abs);
         sc
     }
 }
